@@ -167,7 +167,7 @@ def run(ctx):
         if binary is None:
             ctx.tie_broken("replay probe does not compile against the current headers with the scheduler shim", err)
             return
-        n = ctx.budget(150, 1500)
+        n = ctx.budget(150, 6000)
         for k in range(n):
             m = rng.choice([1, 1, 1, 2, 3])
             nxt = [0]
@@ -182,8 +182,11 @@ def run(ctx):
                 return
             if k < 3:
                 ctx.sample({"workers": m, "scripts": scripts, "schedule": " ".join(sched)})
-        lim = ctx.budget(300, 3000)
-        for (m, scripts, pre) in [(1, [[1]], 3), (1, [[1, 2]], 2), (1, [[1], [2]], 2), (2, [[1, 2]], 2)]:
+        lim = ctx.budget(300, 8000)
+        scen = [(1, [[1]], 3), (1, [[1, 2]], 2), (1, [[1], [2]], 2), (2, [[1, 2]], 2)]
+        if not ctx.quick:
+            scen += [(1, [[1, 2], [3]], 2), (2, [[1], [2]], 2), (3, [[1, 2]], 1), (1, [[1, 2, 3]], 3)]
+        for (m, scripts, pre) in scen:
             scheds = enumerate_schedules(ctx.km, m, scripts, pre, lim)
             ctx.count("replay:enumerated(m=%d,%s,preemptions<=%d)" % (m, json.dumps(scripts), pre), len(scheds))
             for sched in scheds:
